@@ -2,15 +2,22 @@ import eng_distances
 PID = "C13"
 LEAN_MODULE = "Hw.Props.C13"
 NS = "Hw.Props.C13."
-THEOREMS = [NS + t for t in """C13_kind_validation C13_add_then_get C13_get_filter C13_hetero_iff C13_get_nr C13_add_rejects_unchanged_create C13_add_rejects_unchanged_values C13_add_rejects_null_object C13_add_rejects_unchanged_commit C13_compaction_correct C13_compaction_correct_sigma C13_compaction_sigma_exists C13_compaction_objs C13_restrict_invalidates C13_refresh_dropped_iff C13_refresh_subset C13_refresh_valid_fixed C13_refresh_list C13_dup_keeps C13_xml_roundtrip C13_xml_renumber C13_remove_exact_all C13_remove_exact_by_depth C13_remove_exact_release_remove C13_ids_distinct_commit C13_ids_distinct_refresh C13_ids_distinct_sublist C13_transform_remove_null_keeps C13_links_divides C13_links_base C13_links_divider_min C13_closure_adds_min C13_transform_keeps_nonswitch C13_transform_nonswitch_kept C13_transform_first_port C13_transform_merge_no_port""".split()]
+THEOREMS = [NS + t for t in """C13_kind_validation C13_add_then_get C13_get_filter C13_hetero_iff C13_get_nr C13_add_rejects_unchanged_create C13_add_rejects_unchanged_values C13_add_rejects_null_object C13_add_rejects_unchanged_commit C13_compaction_correct C13_compaction_correct_sigma C13_compaction_sigma_exists C13_compaction_objs C13_restrict_invalidates C13_refresh_dropped_iff C13_refresh_subset C13_refresh_valid_fixed C13_refresh_list C13_dup_keeps C13_xml_roundtrip C13_xml_renumber C13_remove_exact_all C13_remove_exact_by_depth C13_remove_exact_release_remove C13_ids_distinct_commit C13_ids_distinct_refresh C13_ids_distinct_sublist C13_transform_remove_null_keeps C13_links_divides C13_links_base C13_links_divider_min C13_closure_adds_min C13_transform_keeps_nonswitch C13_transform_nonswitch_kept C13_transform_first_port C13_transform_merge_no_port C13_group_check_matrix_iff C13_group_refused C13_group_closure_fuel C13_group_ids_partition C13_group_ids_connected C13_group_ids_closure C13_group_matrix_symmetric C13_group_rounds_fuel C13_group_round_shape C13_group_round_disjoint C13_group_round_insert_laminar C13_group_commit_laminar C13_group_closure_not_transitive_witness""".split()]
 CHECK_MODULES = ["Hw.Props.C13"]
 TRUSTED = ["the harness annotations (live objects after a topology change, object resolution by type/logical index, "
            "depth->type lookups) are taken from the real topology and given to the model as its environment"]
 ASSUMPTIONS = ["malloc never fails; object arrays and value matrices passed to add_values are non-NULL",
-               "grouping triggered by the GROUP flags is not modelled (side stream without verdict)"]
+               "grouping by distances is modelled at the default accuracy only (HWLOC_GROUPING_ACCURACY unset: exact integer comparisons); "
+               "commits with the GROUP flag under non-default accuracies (float comparisons) run in a side stream judged for aborts / "
+               "sanitizer reports only",
+               "predicted GROUP commits: every object of the topology has cpuset == complete_cpuset (true for the synthetic topologies of "
+               "the generator; otherwise the harness marks the commit as unpredicted, `ok U`)"]
 MODELLED = ("modelled: hwloc/distances.c user API add_create/add_values/add_commit, refresh_one/refresh/restrict compaction, "
             "invalidate, dup, __distances_get filter and *nr convention, get_name, remove, remove_by_depth, release_remove, "
-            "the four transforms, XML export/import as a list transfer; exercised but not modelled: grouping, shmem adoption")
+            "the four transforms, XML export/import as a list transfer; hwloc__groups_by_distances at accuracy 0 (check_grouping_matrix, "
+            "find_groups_by_min_distance with its rescan loop, give-up rules, factorised group matrix, recursion, Group cpusets / kind / "
+            "subkind numbering) composed with the C02 model of hwloc_topology_insert_group_object; exercised but not modelled: grouping "
+            "with non-zero accuracies, shmem adoption")
 
 
 def run_engines(tier, seed):
